@@ -231,7 +231,11 @@ class _ManifoldDynamicsService(_DynamicsServiceBase):
         Tuple[np.ndarray, np.ndarray, np.ndarray, np.ndarray]
             The stm of the manifold.
         """
-        cache_key = self.make_key(id(self.orbit), steps, self.forward)
+        # Stable and unstable directions are both read off the forward monodromy
+        # matrix (multiplier inside / outside the unit circle) and transported
+        # along the orbit by the forward STM; only the manifold branches
+        # themselves are integrated backward for the stable case.
+        cache_key = self.make_key(id(self.orbit), steps, 1)
         
         def _factory() -> Tuple[np.ndarray, np.ndarray, np.ndarray, np.ndarray]:
             return _compute_stm(
@@ -239,7 +243,7 @@ class _ManifoldDynamicsService(_DynamicsServiceBase):
                 self.orbit.initial_state,
                 self.period,
                 steps=steps,
-                forward=self.forward,
+                forward=1,
             )
         
         return self.get_or_create(cache_key, _factory)
